@@ -1827,3 +1827,276 @@ def spec_source_precedence(fns, consts):
 
 
 SPECS["C06"].append(spec_source_precedence)
+
+
+# ------------------------------------------------------------------ C01/C02: resuming a short cluster after a flag subcommand
+
+def spec_short_cluster_resume(fns, consts):
+    """Parser::parse_short_arg / Parser::parse: when a short flag subcommand is found before the end of
+    its cluster (`-SaQz`), the number of flags the child parser must skip when it revisits the cluster
+    is a CHARACTER count.  It must be derived from the cluster itself: on every path returning
+    FlagSubCommand with flags left, `flag_subcmd_skip` is written as (flags in the whole cluster) -
+    (flags left), both counted on the cluster iterator, the first before anything is consumed - the
+    solver shows the subtraction cannot underflow given that consuming never increases the count - and
+    Parser::parse does not overwrite it from the value index (an option may take 0 or 2+ indices)."""
+    con = contracts.Contracts(fns, default_pure=True)
+    ctx = symex.Ctx(consts, con)
+    fn = _find(fns, "parser/parser.rs", "parse_short_arg")
+    names = ["self", "matcher", "short_arg", "parse_state", "pos_counter", "valid_arg_found"]
+    args = [("opq", names[i] if i < len(names) else f"a{i}") for i in range(len(fn.params))]
+    ex = symex.Exec(ctx, fn, args)
+    ex.run(havoc_unassigned=True, cut_loops=True)
+    obs = []
+
+    def add(msg, pc, neg, f=fn, block="ret"):
+        obs.append({"fn": f.name, "block": block, "kind": "spec", "target": "short_cluster_resume", "msg": msg, "pc": list(pc), "neg": neg})
+
+    # overflow asserts of this function that involve the counts are part of the claim
+    cnt_syms = [ctx.keys[k] for k in ctx.keys if re.search(r"as Iterator>::count\(", k)]
+    if len(cnt_syms) >= 2:
+        # contract: counting the flags left never yields more than counting the whole cluster did
+        for c in cnt_syms[1:]:
+            ctx.assume("consuming flags never increases the cluster iterator's count", f"(bvule {c} {cnt_syms[0]})")
+    n_resume = 0
+    paths = list(zip(ex.returns, ex.return_callargs, ex.return_envs)) + [((pc, None), env.get("#callargs", ()), env) for pc, env in ex.cuts]
+    for (pc, val), ca, env in paths:
+        cn = [c[0] for c in ca]
+        if not any(n.endswith("find_short_subcmd") for n in cn):
+            continue
+        emp = [c for c in ca if c[0].endswith("ShortFlags::<'_>::is_empty")]
+        is_sub = val is not None and val[0] == "enum" and val[1] == "Ok" and val[2] is not None and "FlagSubCommand" in ex.key(val[2])
+        if not is_sub or not emp:
+            continue
+        esym = ctx.keys.get(emp[-1][2])
+        if esym in pc:
+            continue        # nothing left in the cluster: no resume
+        n_resume += 1
+        stores = {k: v for k, v in env.items() if re.match(r"^place:\(\(\*_1\)\.\d+: usize\)$", k)}
+        counts = [i for i, n in enumerate(cn) if re.search(r"as Iterator>::count$", n)]
+        adv = [i for i, n in enumerate(cn) if n.endswith("::advance_by")]
+        ok = False
+        if len(stores) == 1 and len(counts) >= 2 and adv:
+            v = list(stores.values())[0]
+            c0, c1 = ctx.keys.get(ca[counts[0]][2]), ctx.keys.get(ca[counts[-1]][2])
+            nxt = [i for i, n in enumerate(cn) if n.endswith("::next_flag")]
+            ok = v[0] == "bv" and v[1] == f"(bvsub {c0} {c1})" and counts[0] < adv[0] and (not nxt or counts[-1] > nxt[-1]) \
+                and "short_arg" in ca[counts[0]][1][0] and "short_arg" in ca[counts[-1]][1][0]
+        add("a flag subcommand found before the end of its cluster records (flags in the cluster) - (flags left) as the number of flags to skip on revisit", pc, "false" if ok else "true")
+    # the recorded count is used once: it is reset to 0 before the cluster is advanced, and stays 0 unless a resume is recorded
+    n_adv = 0
+    for (pc, val), ca, env in paths:
+        cn = [c[0] for c in ca]
+        adv = [i for i, x in enumerate(cn) if x.endswith("::advance_by")]
+        if not adv:
+            continue
+        n_adv += 1
+        stores = {k: v for k, v in env.items() if re.match(r"^place:\(\(\*_1\)\.\d+: usize\)$", k)}
+        emp = [c for c in ca if c[0].endswith("ShortFlags::<'_>::is_empty")]
+        resume = val is not None and val[0] == "enum" and val[1] == "Ok" and val[2] is not None and "FlagSubCommand" in ex.key(val[2]) and emp and ctx.keys.get(emp[-1][2]) not in pc
+        if resume:
+            continue
+        ok = len(stores) == 1 and list(stores.values())[0] == ("bv", "(_ bv0 64)", 64)
+        add("the recorded skip count is used once: reset to 0 before the cluster is advanced by it", pc, "false" if ok else "true")
+    if n_resume == 0 or n_adv == 0:
+        add("parse_short_arg: no path finds a flag subcommand with flags left", [], "true", block="shape")
+    for o in ex.obligations:
+        if o["kind"] == "assert" and "subtract" in o["msg"]:
+            o2 = dict(o)
+            o2.update({"kind": "spec", "target": "short_cluster_resume", "msg": "the skip count (cluster - left) cannot underflow: " + o["msg"][:60]})
+            obs.append(o2)
+    # Parser::parse must not recompute the skip count from the value index
+    pfn = _find(fns, "parser/parser.rs", "parse")
+    clos = [f.get() for n, f in fns.items() if n.startswith(pfn.name + "::{closure")]
+    bad = []
+    for f in [pfn] + clos:
+        text = getattr(f, "text", "") or ""
+        if f is not pfn and re.search(r"debug self__flag_subcmd_skip => \(\*\(_1\.\d+: &mut usize\)\)", text):
+            bad.append((f.name.split("::")[-1], "captures flag_subcmd_skip mutably"))
+        for b, blk in f.blocks.items():
+            for st in blk["stmts"]:
+                m = re.match(r"^\(\(\*_1\)\.\d+: usize\) = (.*?);?$", st.strip())
+                if f is pfn and m and not re.match(r"^const 0_usize$", m.group(1)):
+                    bad.append((f.name.split("::")[-1], st.strip()[:80]))
+    add("Parser::parse (and its closures) never writes the skip count itself", [], "true" if bad else "false", f=pfn, block="shape")
+    return ctx, obs, [_enc(fn, ex, n_resume), {"function": pfn.name + " [field stores]", "mir_line": pfn.line, "mir_blocks": len(pfn.blocks), "obligations": 1, "return_paths": 0}], con
+
+
+SPECS["C01"].append(spec_short_cluster_resume)
+SPECS["C02"].append(spec_short_cluster_resume)
+
+
+# ------------------------------------------------------------------ C03: the predicate every conditional rule is filtered by
+
+def spec_check_explicit(fns, consts):
+    """MatchedArg::check_explicit: false for an entry whose source is not explicit; otherwise IsPresent
+    is true, and Equals(v) is `raw_vals_flatten().any(..)` - true iff ANY raw value matches - with the
+    match being eq_ignore_case(lossy(value), lossy(v)) under ignore_case and OsStr equality otherwise
+    (the closure is executed from its own MIR and compared with that reference by the solver)."""
+    con = contracts.Contracts(fns, default_pure=True)
+    ctx = symex.Ctx(consts, con)
+    fn = _find(fns, "matches/matched_arg.rs", "check_explicit")
+    ex = symex.Exec(ctx, fn, [("opq", "self"), ("opq", "predicate")]).run()
+    obs, enc = [], []
+
+    def add(msg, pc, neg, f=fn):
+        obs.append({"fn": f.name, "block": "ret", "kind": "spec", "target": "check_explicit", "msg": msg, "pc": list(pc), "neg": neg})
+
+    implicit = [ctx.keys[k] for k in ctx.keys if re.match(r"^Option::<bool>::unwrap_or\(Option::<ValueSource>::map::<bool, .*>\(self\.0,.*\),false\)$", k.replace(" ", "")) or re.match(r"^Option::<bool>::unwrap_or\(Option::<ValueSource>::map::<bool,", k)]
+    d = ctx.keys.get("discr(predicate)")
+    n_eq = 0
+    for (pc, val), ca in zip(ex.returns, ex.return_callargs):
+        cn = [c[0] for c in ca]
+        if len(implicit) == 1 and implicit[0] in pc:
+            add("an entry that is not explicitly sourced never satisfies a predicate", pc, "false" if val == ("bool", "false") else "true")
+            continue
+        if d and f"(= {d} (_ bv0 64))" in pc:
+            add("IsPresent holds for every explicitly sourced entry", pc, "false" if val == ("bool", "true") else "true")
+        elif d and f"(= {d} (_ bv1 64))" in pc:
+            n_eq += 1
+            anys = [c for c in ca if re.search(r"^<Flatten<.*> as Iterator>::any::<\{closure@", c[0])]
+            ok = len(anys) == 1 and "MatchedArg::raw_vals_flatten(self)" in anys[0][1][0] and val[0] == "bool" and val[1] == ctx.keys.get(anys[0][2]) \
+                and not any(re.search(r"as Iterator>::(all|find|position|last|nth|skip|take|rev)\b", n) for n in cn)
+            add("Equals(v) is decided by ANY raw value of the entry matching v", pc, "false" if ok else "true")
+            if anys:
+                loc = re.search(r"\{closure@[^}]*\}", anys[0][0]).group(0)
+                try:
+                    cf = _closure_fn(fns, loc)
+                    cex = symex.Exec(ctx, cf, [("opq", "cl"), ("opq", "value")]).run()
+                    ic = [ctx.keys[k] for k in ctx.keys if re.match(r"^cl\.0\.\d+$", k) and ctx.decls[ctx.keys[k]] == "Bool"]
+                    eqi = [ctx.keys[k] for k in ctx.keys if k.startswith("eq_ignore_case(") and "to_string_lossy(<OsString as Deref>::deref(value))" in k and "cl.1" in k]
+                    eqs = [ctx.keys[k] for k in ctx.keys if k.startswith("<&std::ffi::OsStr as PartialEq>::eq(OsString::as_os_str(value)") and "cl.1" in k]
+                    if len(ic) == 1 and len(eqi) == 1 and len(eqs) == 1:
+                        for cpc, cval in cex.returns:
+                            add("a raw value matches v: eq_ignore_case(lossy, lossy) under ignore_case, OsStr equality otherwise", cpc, f"(not (= {cval[1]} (ite {ic[0]} {eqi[0]} {eqs[0]})))", f=cf)
+                    else:
+                        add("the matching closure no longer has the reference shape", [], "true", f=cf)
+                    enc.append(_enc(cf, cex, len(cex.returns)))
+                except Unsupported as e:
+                    add("the matching closure cannot be encoded: " + str(e)[:60], [], "true")
+    if n_eq == 0 or len(implicit) != 1:
+        add("check_explicit no longer has the reference shape", [], "true")
+    enc.append(_enc(fn, ex, len(ex.returns)))
+    return ctx, obs, enc, con
+
+
+SPECS["C03"].append(spec_check_explicit)
+SPECS["C06"].append(spec_check_explicit)
+
+
+# ------------------------------------------------------------------ C06/C07: only a command-line occurrence removes what it overrides
+
+def spec_start_custom_arg(fns, consts):
+    """Parser::start_custom_arg: earlier occurrences of overridden arguments are removed (remove_overrides)
+    exactly when the new occurrence comes from the COMMAND LINE - never for a value supplied by the
+    environment or a default, which must not displace what the user typed; the occurrence is then opened
+    in the matcher for the same argument and source, and group membership is recorded exactly for
+    explicit sources."""
+    con = contracts.Contracts(fns, default_pure=True)
+    ctx = symex.Ctx(consts, con)
+    fn = _find(fns, "parser/parser.rs", "start_custom_arg")
+    ex = symex.Exec(ctx, fn, [("opq", "self"), ("opq", "matcher"), ("opq", "arg"), ("opq", "source")])
+    ex.run(havoc_unassigned=True, cut_loops=True)
+    obs = []
+
+    def add(msg, pc, neg):
+        obs.append({"fn": fn.name, "block": "ret", "kind": "spec", "target": "start_custom_arg", "msg": msg, "pc": list(pc), "neg": neg})
+
+    def promoted_is_command_line(key):
+        m = re.match(r"^const:(.*::promoted\[\d+\])$", key)
+        if not m:
+            return False
+        tail = m.group(1).split("::")[-2:]
+        cands = [v for k, v in consts.items() if k.startswith("promoted:") and k.endswith("::".join(tail)) and "start_custom_arg" in k and "parser/parser.rs" in k]
+        return len(cands) == 1 and any(re.search(r"= ValueSource::CommandLine;", l) for l in cands[0][2]) and sum("= ValueSource::" in l for l in cands[0][2]) == 1
+
+    paths = [(pc, ca) for (pc, _), ca in zip(ex.returns, ex.return_callargs)] + [(pc, env.get("#callargs", ())) for pc, env in ex.cuts]
+    n = 0
+    for pc, ca in paths:
+        cn = [c[0] for c in ca]
+        eqs = [c for c in ca if c[0] == "<ValueSource as PartialEq>::eq"]
+        rm = [i for i, x in enumerate(cn) if x.endswith("::remove_overrides")]
+        st = [i for i, x in enumerate(cn) if x == "ArgMatcher::start_custom_arg"]
+        n += 1
+        if len(eqs) != 1 or eqs[0][1][0] != "source" or not promoted_is_command_line(eqs[0][1][1]):
+            add("the decision to remove overridden arguments compares the source with ValueSource::CommandLine", pc, "true")
+            continue
+        sym = ctx.keys.get(eqs[0][2])
+        ok_shape = (not rm or (len(rm) == 1 and ca[rm[0]][1] == ("self", "arg", "matcher") and st and rm[0] < st[0])) and len(st) == 1 and ca[st[0]][1] == ("matcher", "arg", "source")
+        add("overridden arguments are removed exactly for a command-line occurrence, before the occurrence is opened for the same argument and source", pc,
+            "true" if not ok_shape else (f"(not {sym})" if rm else sym))
+        exp = [c for c in ca if c[0] == "ValueSource::is_explicit"]
+        grp = any(x == "ArgMatcher::start_custom_group" or x.endswith("groups_for_arg") for x in cn)
+        if exp:
+            es = ctx.keys.get(exp[0][2])
+            add("group membership is recorded exactly for explicit sources", pc, f"(not {es})" if grp else es)
+    if n == 0:
+        add("start_custom_arg: no path", [], "true")
+    return ctx, obs, [_enc(fn, ex, n)], con
+
+
+SPECS["C06"].append(spec_start_custom_arg)
+SPECS["C07"].append(spec_start_custom_arg)
+
+
+# ------------------------------------------------------------------ C11: the two places that name subcommands agree
+
+def spec_bin_name_twins(fns, consts):
+    """Command::_build_subcommand (run by every parse that enters a subcommand) and
+    Command::_build_bin_names_internal (run by build()/help rendering) both compute a subcommand's
+    usage_name / bin_name; a definition that was used for a parse renders like a fresh one only if they
+    agree.  Decided: (1) in BOTH functions the required-arguments infix is computed
+    (get_required_usage_from called) exactly when neither subcommand_negates_reqs nor
+    args_conflicts_with_subcommands is set (solver, per path); (2) both take the parent prefix from
+    `self.bin_name` through the same `as_deref().unwrap_or(fallback)` (name, or "" under multicall)."""
+    con = contracts.Contracts(fns, default_pure=True)
+    ctx = symex.Ctx(consts, con)
+    obs, enc = [], []
+    prefix = {}
+    for fname in ("_build_subcommand", "_build_bin_names_internal"):
+        fn = _find(fns, "builder/command.rs", fname)
+        args = [("opq", "self")] + [("opq", f"a{i}") for i in range(1, len(fn.params))]
+        ex = symex.Exec(ctx, fn, args)
+        ex.run(havoc_unassigned=True, cut_loops=True)
+        paths = [(pc, ca) for (pc, _), ca in zip(ex.returns, ex.return_callargs)] + [(pc, env.get("#callargs", ())) for pc, env in ex.cuts]
+        neg_s = ex.typed_fresh("command::Command::is_subcommand_negates_reqs_set(self)", "bool")[1]
+        con_s = ex.typed_fresh("command::Command::is_args_conflicts_with_subcommands_set(self)", "bool")[1]
+        uses = set()
+        n = 0
+        for pc, ca in paths:
+            cn = [c[0] for c in ca]
+            if not any(x.endswith("is_subcommand_negates_reqs_set") or x.endswith("is_args_conflicts_with_subcommands_set") or x.endswith("get_required_usage_from") for x in cn):
+                continue       # (_build_bin_names_internal: already built)
+            n += 1
+            called = any(x.endswith("get_required_usage_from") for x in cn)
+            cond = f"(and (not {neg_s}) (not {con_s}))" if neg_s else "false"
+            obs.append({"fn": fn.name, "block": "path", "kind": "spec", "target": "bin_name_twins",
+                        "msg": f"{fname}: the required-arguments infix is computed exactly when neither subcommand_negates_reqs nor args_conflicts_with_subcommands is set",
+                        "pc": list(pc), "neg": f"(not {cond})" if called else cond})
+            for c in ca:
+                if c[0] in ("Option::<String>::as_deref", "Option::<String>::as_ref") and re.match(r"^self\.\d+$", c[1][0]):
+                    users = [d for d in ca if c[2] in d[1][:1]]
+                    for d in users:
+                        fb = d[1][1] if len(d[1]) > 1 else ""
+                        fbk = "name" if re.match(r"^<.*Deref>::deref\(self\.\d+\)$|^self\.\d+$|^builder::str::Str::as_str\(self\.\d+\)$|.*as_str\(self", fb) else ('""' if fb in ('str:""',) else ("-" if not fb else "other"))
+                        uses.add((c[1][0], c[0].split("::")[-1], d[0].split("::")[-1].split("<")[0], fbk))
+        prefix[fname] = uses
+        if n == 0:
+            obs.append({"fn": fn.name, "block": "shape", "kind": "spec", "target": "bin_name_twins", "msg": f"{fname}: no path computes names", "pc": [], "neg": "true"})
+        enc.append(_enc(fn, ex, n))
+    # (2) the field read as the parent's bin_name is the one _build_bin_names_internal reads with unwrap_or(name / "")
+    internal = {u for u in prefix.get("_build_bin_names_internal", ()) if u[2] == "unwrap_or"}
+    fields = {u[0] for u in internal}
+    sub = {u for u in prefix.get("_build_subcommand", ()) if u[0] in fields}
+    same = bool(fields) and {(u[1], u[2], u[3]) for u in sub if u[0] in fields} <= {(u[1], u[2], u[3]) for u in internal} and bool(sub)
+    obs.append({"fn": "command.rs", "block": "twins", "kind": "spec", "target": "bin_name_twins",
+                "msg": "both functions take the parent prefix from self.bin_name the same way (as_deref().unwrap_or(name | \"\")): " + ("agree" if same else f"_build_subcommand uses {sorted((u[1], u[2], u[3]) for u in sub)}, _build_bin_names_internal {sorted((u[1], u[2], u[3]) for u in internal)}"),
+                "pc": [], "neg": "false" if same else "true"})
+    return ctx, obs, enc, con
+
+
+SPECS["C11"].append(spec_bin_name_twins)
+
+
+# cross-registration: kernels that serve more than one property
+SPECS["C02"].append(spec_positional_counter)      # which positional a token is attributed to
+SPECS["C07"].append(spec_react_index)             # every occurrence is opened through Parser::start_custom_arg (override removal)
